@@ -62,7 +62,7 @@
    docs/C08.md. *)
 From Coq Require Import List ZArith Bool Arith Lia.
 From SC Require Import Base.Res Inst.Heap Inst.ClassTable Inst.Model Inst.Framed Inst.FrameProofs
-  Inst.Reach Inst.SepProofs Props.C01 Props.C02 Inst.AtomicProofs Inst.SepMore Inst.SepMore2 Inst.SepMore3 Inst.SepMore4.
+  Inst.Reach Inst.SepProofs Props.C01 Props.C02 Inst.AtomicProofs Inst.SepMore Inst.SepMore2 Inst.SepMore3 Inst.SepMore4 Inst.SepMore5.
 Import ListNotations.
 Open Scope nat_scope.
 
@@ -586,6 +586,61 @@ Example C08_peers_disjoint_dependants_nonvacuous :
    nth_error (heap s') 3 = Some (OInst 2 [(51, VInt 3); (52, VRef 4)])).
 Proof. exact peers_disjoint_dependants_nonvacuous. Qed.
 
+(* ------------------------------------------------------------------ *)
+(* The same, with EVERY helper allowed in place — attribute level, element level
+   (with_/update_/transform_/without_<item>: mutation of a nested value at depth one), update / transform /
+   reset — with scalar arguments, on instances created by constructor calls of the history
+   (alphabet `peer_op_ok2`; proofs: coq/Inst/SepMore5.v on top of coq/Inst/SepGen.v, the separation
+   judgement of SepProofs.v with the written old cells constrained: with W = A = "what the receiver
+   reached" an in-place operation is confined to the receiver's own object graph and that graph, like the
+   freshly allocated cells, refers only to itself and to fresh cells: `gshape`).
+   "Mutating one instance in place changes no other instance": the peers' graphs stay disjoint, and a cell
+   outside the receiver's graph is never written (gshape, first clause). *)
+Theorem C08_peers_disjoint_history_nested_partial :
+  forall ct, no_dnc_classes ct -> scalar_table ct -> tgb ct = true -> no_dnc_attrs ct ->
+  all_init ct -> no_overrides ct ->
+  forall n0, (forall c k a, lookup_cls ct c = Some k -> vb n0 (class_default k a)) ->
+  forall ops s roots,
+    n0 <= length (heap s) -> wf_heap (heap s) -> Forall (vb (length (heap s))) roots ->
+    ops_ok2 (length roots) [] ops -> Forall (fun p => op_scalar (fst p)) ops ->
+    forall i j ci pi kwi fi cj pj kwj fj li lj,
+      nth_error ops i = Some (OpConstruct ci pi kwi, fi) ->
+      nth_error ops j = Some (OpConstruct cj pj kwj, fj) -> i <> j ->
+      nth (length roots + i) (snd (run_ops ct s roots ops)) VNone = VRef li ->
+      nth (length roots + j) (snd (run_ops ct s roots ops)) VNone = VRef lj ->
+      li <> lj /\
+      forall z, reach (heap (fst (run_ops ct s roots ops))) li z ->
+                reach (heap (fst (run_ops ct s roots ops))) lj z -> False.
+Proof.
+  intros ct H1 H2 H3 H4 Hi Ho n0 H5 ops s roots Hn Hw Hr Hok Hsc.
+  apply (ctor_peers_disjoint2 ct H1 H2 H3 H4 Hi Ho ops s roots Hok).
+  exact (run_wf_holds ct H2 n0 H5 ops s roots Hn Hw Hr Hsc).
+Qed.
+
+(* one step: an in-place helper on an instance holding its defaults is confined to that instance's graph *)
+Theorem C08_inplace_confined_to_own_graph :
+  forall ct, no_dnc_classes ct -> scalar_table ct -> tgb ct = true -> no_dnc_attrs ct ->
+  all_init ct -> no_overrides ct ->
+  forall l c hp h s r s',
+    hd ct l c s -> h_inplace h = true -> inplace2 hp ->
+    (forall a, item_helper_attr hp = Some a -> a <> A_INITIALIZING) ->
+    Forall val_nonref (h_pos h) -> val_nonref (h_index h) -> h_kw h = None -> h_kwfn h = [] -> ofn_scalar (h_fn h) ->
+    run_helper ct l hp h s = (r, s') -> gshape (length (heap s)) (heap s) l s'.
+Proof. intros ct H1 H2 H3 H4 H5 H6. exact (helper_inplace_gshape ct H1 H2 H3 H4 H5 H6). Qed.
+
+(* non-vacuity: p = C(); q = C(); p.with_x(5); q.with_x(6); p.without_x(1); q.transform_x(0, +10);
+   p.transform() — all with _inplace=True *)
+Example C08_peers_disjoint_nested_nonvacuous :
+  ops_ok2 1 [] exn_ops /\
+  run_wfb exp_ct (mkst [OList [VInt 1]] 0 None) [VRef 0] exn_ops = true /\
+  Forall (fun p => op_scalar (fst p)) exn_ops /\
+  (let '(s', roots') := run_ops exp_ct (mkst [OList [VInt 1]] 0 None) [VRef 0] exn_ops in
+   roots' = [VRef 0; VRef 1; VRef 3; VRef 1; VRef 3; VRef 1; VRef 3; VRef 1] /\
+   firstn 5 (heap s') = [OList [VInt 1];
+                         OInst 2 [(50, VRef 2); (51, VInt 3)]; OList [VInt 5];
+                         OInst 2 [(50, VRef 4); (51, VInt 3)]; OList [VInt 11; VInt 6]]).
+Proof. exact peers_disjoint_nested_nonvacuous. Qed.
+
 Print Assumptions C08_construct_fresh.
 Print Assumptions C08_default_is_fresh.
 Print Assumptions C08_reset_keeps_defaults_isolated.
@@ -614,3 +669,6 @@ Print Assumptions C08_peers_disjoint_history_partial.
 Print Assumptions C08_peers_disjoint_partial_nonvacuous.
 Print Assumptions C08_peers_disjoint_inplace_nonvacuous.
 Print Assumptions C08_peers_disjoint_dependants_nonvacuous.
+Print Assumptions C08_peers_disjoint_history_nested_partial.
+Print Assumptions C08_inplace_confined_to_own_graph.
+Print Assumptions C08_peers_disjoint_nested_nonvacuous.
